@@ -294,10 +294,25 @@ Section Calib.
         | inl sc' => (mkSt (set_sch (live s') sc') (disk s'), Some e, [])
         end
       | (s', _) =>
-        match end_session (sch (live s')) with
-        | inr e => (s', Some e, [])
-        | inl sc' => let c' := set_sch (live s') sc' in
-                     (mkSt c' (disk s'), None, sort_pairs (combine (params c') (losses c')))
+        (* repair C04-calibrate-zero-checkpoint: when no batch was run (n_batches <= 0) the state is
+           checkpointed all the same, so that the folder holds the state calibrate() returns with *)
+        match (if Nat.eqb n 0 && c_saving (cfg (live s'))
+               then match save (live s') with
+                    | Some d => inl (mkSt (live s') (Some d))
+                    | None => inr ExOther
+                    end
+               else inl s') with
+        | inr e0 =>
+          match end_session (sch (live s')) with
+          | inr e' => (s', Some e', [])
+          | inl sc' => (mkSt (set_sch (live s') sc') (disk s'), Some e0, [])
+          end
+        | inl s'' =>
+          match end_session (sch (live s'')) with
+          | inr e => (s'', Some e, [])
+          | inl sc' => let c' := set_sch (live s'') sc' in
+                       (mkSt c' (disk s''), None, sort_pairs (combine (params c') (losses c')))
+          end
         end
       end
     end.
